@@ -1,6 +1,7 @@
 package main
 
 import (
+	"reflect"
 	"bytes"
 	"encoding/json"
 	"fmt"
@@ -48,7 +49,12 @@ func nameVariants(names []string) []string {
 		out = append(out, "/")
 	}
 	for _, n := range names {
-		for _, v := range []string{strings.ToLower(n), strings.ToUpper(n), " " + n, n + " ", strings.TrimSpace(n), n + "/", strings.TrimSuffix(n, "/")} {
+		forms := []string{strings.ToLower(n), strings.ToUpper(n), " " + n, n + " ", strings.TrimSpace(n), n + "/", strings.TrimSuffix(n, "/")}
+		if k := strings.Index(n, "://"); k > 0 {
+			// spellings a URI parser folds back to n: upper-case scheme, empty fragment, empty query, default port
+			forms = append(forms, strings.ToUpper(n[:k])+n[k:], n+"#", n+"?")
+		}
+		for _, v := range forms {
 			if !have[v] && v != "" {
 				have[v] = true
 				out = append(out, v)
@@ -157,7 +163,7 @@ func (regWorld) Gen(prop, tier string, idx int, r *Rng) *Trace {
 			}
 			ops = append(ops, op)
 		case 3:
-			op := Op{K: "indep", S: all[r.Intn(len(all))], T: all[r.Intn(len(all))], A: r.Intn(1 << 16), D: r.Intn(3)}
+			op := Op{K: "indep", S: all[r.Intn(len(all))], T: all[r.Intn(len(all))], A: r.Intn(1 << 16), D: r.Intn(4)}
 			k := r.Range(1, 8)
 			for j := 0; j < k; j++ {
 				op.L = append(op.L, r.Intn(nMutations))
@@ -186,6 +192,8 @@ type regProbe struct {
 	payload []byte            // cose: the claims inside the envelope
 	p1claim *string           // text carried under the profile-1 profile claim (-75000 / psa-profile), when present
 	members map[string]string // JSON: profile member -> string value ("\x00nonstring" for non-string)
+	edge    bool              // a document in an unusual but legal spelling, favoured by the independence step
+	pair    string            // the same claims-set in the other serialisation carries the same pair id
 }
 
 var regP1Body, regP2Body *ClaimsDesc
@@ -276,13 +284,28 @@ func buildRegProbes(names []string) []regProbe {
 			}
 		}
 	}
+	// ... and a profile-2 body announcing such a variant of a name as plain text under key 265
+	for _, v := range nameVariants(append(append([]string{}, names...), psatoken.Profile2Name)) {
+		v := v
+		d2 := *p2
+		d2.ProfClaim = sp(psatoken.Profile2Name)
+		if c := enc(d2, false); len(c) > 5 && c[1] == 0x19 && c[2] == 0x01 && c[3] == 0x09 {
+			if vEnd, err := walkItem(c, 4, 0, nil); err == nil {
+				nb := append([]byte{}, c[:4]...)
+				nb = append(nb, encodeHead(3, uint64(len(v)))...)
+				nb = append(nb, v...)
+				nb = append(nb, c[vEnd:]...)
+				add(regProbe{name: fmt.Sprintf("cbor/p2 body+265=%q (variant)", v), ser: "cbor", doc: nb, declares: []string{v}, c265: &v})
+			}
+		}
+	}
 	for _, n := range all {
 		n := n
 		d2 := *p2
 		d2.ProfClaim = sp(n)
 		d1 := *p1
 		d1.ProfClaim = sp(n)
-		add(regProbe{name: "cbor/265=" + n, ser: "cbor", doc: enc(d2, false), declares: []string{n}, c265: &n})
+		add(regProbe{name: "cbor/265=" + n, ser: "cbor", doc: enc(d2, false), declares: []string{n}, c265: &n, pair: "d2/" + n})
 		if c := enc(d2, false); len(c) > 4 && c[1] == 0x19 && c[2] == 0x01 && c[3] == 0x09 {
 			// the same token with key 265 written in a non-shortest form, and with that pair moved to the end of the map
 			nm := append([]byte{c[0], 0x1a, 0x00, 0x00, 0x01, 0x09}, c[4:]...)
@@ -295,7 +318,7 @@ func buildRegProbes(names []string) []regProbe {
 		}
 		// a profile-1 shaped token naming n under its own key: dispatch sees no key 265
 		add(regProbe{name: "cbor/-75000=" + n, ser: "cbor", doc: enc(d1, false), declares: []string{n}, p1claim: &n})
-		add(regProbe{name: "json/eat-profile=" + n, ser: "json", doc: enc(d2, true), declares: []string{n}, members: map[string]string{"eat-profile": n}})
+		add(regProbe{name: "json/eat-profile=" + n, ser: "json", doc: enc(d2, true), declares: []string{n}, members: map[string]string{"eat-profile": n}, pair: "d2/" + n})
 		// the same name in another legal JSON spelling (escaped slashes, a \u escape)
 		if j := enc(d2, true); j != nil && strings.Contains(n, "/") {
 			esc := strings.Replace(strings.ReplaceAll(quote(n), "/", `\/`), `\/`, `\u002f`, 1)
@@ -316,6 +339,14 @@ func buildRegProbes(names []string) []regProbe {
 			if j := enc(dq, true); j != nil {
 				add(regProbe{name: `json/no profile member +""=` + n, ser: "json", doc: jsonEdit(j, "", quote(n), false), declares: []string{n}, members: map[string]string{}})
 			}
+		}
+		// a profile-2 shaped claims-set whose certification reference only profile 1's rule accepts (bare EAN-13)
+		{
+			de := *p2
+			de.ProfClaim = sp(n)
+			de.CertRef = sp("1234567890123")
+			add(regProbe{name: "cbor/265=" + n + " cert EAN-13", ser: "cbor", doc: enc(de, false), declares: []string{n}, c265: &n, pair: "de/" + n})
+			add(regProbe{name: "json/eat-profile=" + n + " cert EAN-13", ser: "json", doc: enc(de, true), declares: []string{n}, members: map[string]string{"eat-profile": n}, pair: "de/" + n})
 		}
 		// a token that is rejected part-way (client id of the wrong type) although it carries every optional claim
 		dfull := *p2
@@ -359,8 +390,9 @@ func buildRegProbes(names []string) []regProbe {
 		}
 		if j := enc(d2, true); j != nil {
 			add(regProbe{name: "json/eat-profile=" + n + " sim-extra=-5", ser: "json", doc: jsonEdit(j, "sim-extra", "-5", false), declares: []string{n}, members: map[string]string{"eat-profile": n}})
-			add(regProbe{name: "json/la-profile=" + n, ser: "json", doc: jsonEdit(j, "la-profile", quote(n), false), declares: []string{n}, members: map[string]string{"eat-profile": n, "la-profile": n}})
-			add(regProbe{name: "json/lb-profile=" + n, ser: "json", doc: jsonEdit(j, "lb-profile", quote(n), false), declares: []string{n}, members: map[string]string{"eat-profile": n, "lb-profile": n}})
+			// (these two kinds have no rule of their own about their extra member, so the documents pair with cbor/265=n)
+			add(regProbe{name: "json/la-profile=" + n, ser: "json", doc: jsonEdit(j, "la-profile", quote(n), false), declares: []string{n}, members: map[string]string{"eat-profile": n, "la-profile": n}, pair: "d2/" + n})
+			add(regProbe{name: "json/lb-profile=" + n, ser: "json", doc: jsonEdit(j, "lb-profile", quote(n), false), declares: []string{n}, members: map[string]string{"eat-profile": n, "lb-profile": n}, pair: "d2/" + n})
 		}
 		if j := enc(d1, true); j != nil {
 			add(regProbe{name: "json/psa-profile=" + n + " sim-extra=-5", ser: "json", doc: jsonEdit(j, "sim-extra", "-5", false), declares: []string{n}, members: map[string]string{"psa-profile": n}})
@@ -378,6 +410,32 @@ func buildRegProbes(names []string) []regProbe {
 			for _, m := range []string{"own-profile", "opt-profile", "str-profile", "la-profile", "lb-profile"} {
 				add(regProbe{name: "json/only " + m + "=" + n, ser: "json", doc: jsonEdit(bare, m, quote(n), false), declares: []string{n},
 					members: map[string]string{m: n}})
+			}
+		}
+	}
+	// profile-1 documents that assert "no measurements" and spell the component list as an explicit null / an empty list
+	{
+		dn := *p1
+		dn.ProfClaim = nil
+		dn.Sw = nil
+		one := uint(1)
+		dn.NoMeas = &one
+		dn.SwNil = true
+		if j := enc(dn, true); j != nil {
+			add(regProbe{name: "json/p1 no-measurements, components null", ser: "json", doc: jsonEdit(j, "psa-software-components", "null", false), members: map[string]string{}, edge: true})
+			add(regProbe{name: "json/p1 no-measurements, components []", ser: "json", doc: jsonEdit(j, "psa-software-components", "[]", false), members: map[string]string{}, edge: true})
+			add(regProbe{name: "json/p1 no-measurements", ser: "json", doc: j, members: map[string]string{}, edge: true})
+		}
+		if c := enc(dn, false); c != nil {
+			if h, err := readHead(c, 0); err == nil && h.Major == 5 && h.Info != 31 {
+				for label, val := range [][2]any{{"null", []byte{0xf6}}, {"[]", []byte{0x80}}} {
+					_ = label
+					nb := append([]byte{}, encodeHead(5, h.Arg+1)...)
+					nb = append(nb, c[h.HLen:]...)
+					nb = append(nb, 0x3a, 0x00, 0x01, 0x24, 0xfd) // -75006
+					nb = append(nb, val[1].([]byte)...)
+					add(regProbe{name: "cbor/p1 no-measurements, components " + val[0].(string), ser: "cbor", doc: nb, edge: true})
+				}
 			}
 		}
 	}
@@ -535,6 +593,36 @@ func directDecodeOK(kind, name string, p *regProbe) (ok bool) {
 		return u.UnmarshalCBOR(buf) == nil
 	}
 	return u.UnmarshalJSON(buf) == nil
+}
+
+// baseVerdict: the verdict of the built-in profile a derived claims type embeds,
+// on a copy of the embedded claims with the profile claim set to the built-in's
+// own. ok=false when c does not embed a built-in claims type.
+func baseVerdict(c psatoken.IClaims) (verdict string, ok bool) {
+	defer func() {
+		if r := recover(); r != nil {
+			verdict, ok = "", false
+		}
+	}()
+	v := reflect.ValueOf(c)
+	if v.Kind() != reflect.Ptr || v.IsNil() || v.Elem().Kind() != reflect.Struct {
+		return "", false
+	}
+	if f := v.Elem().FieldByName("P2Claims"); f.IsValid() && f.CanInterface() {
+		if b, is := f.Interface().(psatoken.P2Claims); is {
+			b.CanonicalProfile = psatoken.Profile2Name
+			b.Profile = eatProfileOf(psatoken.Profile2Name)
+			return errText(b.Validate()), true
+		}
+	}
+	if f := v.Elem().FieldByName("P1Claims"); f.IsValid() && f.CanInterface() {
+		if b, is := f.Interface().(psatoken.P1Claims); is {
+			b.CanonicalProfile = psatoken.Profile1Name
+			b.Profile = nil
+			return errText(b.Validate()), true
+		}
+	}
+	return "", false
 }
 
 func dispatchValidating(p *regProbe) (ok bool, c psatoken.IClaims) {
@@ -894,6 +982,16 @@ func (regWorld) Exec(prop string, t *Trace) *Result {
 		if a := getterObs(direct); a != got.obs || directValid != got.valid {
 			res.violate("C07", "judged-by-other-rules", "", step, "%s: dispatching decode and direct decode into the declared profile disagree:\n dispatch: %s validate=%s\n direct:   %s validate=%s", p.name, got.obs, got.valid, a, directValid)
 		}
+		if directValid == "ok" {
+			// a derived profile inherits its base profile's rules for the claims it inherits: what it
+			// accepts, the base profile accepts once the profile claim is set aside
+			if bv, ok := baseVerdict(direct); ok {
+				res.Probes["inherited_rules_compared"]++
+				if bv != "ok" {
+					res.violate("C07", "derived-profile-accepts-what-base-rejects", "", step, "%s: accepted under %q (%s), but the very same claims fail the base profile's validation: %s", p.name, name, kindType[kind], bv)
+				}
+			}
+		}
 		vok, vc := dispatchValidating(p)
 		if vok != (got.valid == "ok") {
 			res.violate("C07", "validated-under-other-rules", "", step, "%s: decode-and-validate accepted=%v although the declared profile's own validation says %s", p.name, vok, got.valid)
@@ -1117,6 +1215,24 @@ func (regWorld) Exec(prop string, t *Trace) *Result {
 			base := dispatch(p)
 			shape += "D" + p.ser
 			checkDispatch(i, p, base)
+			if c07 && p.pair != "" && base.ok {
+				// "in CBOR and in JSON alike": the same claims-set in the other serialisation, when it is
+				// handed to the same implementation, gets the same verdict
+				for k := range probes {
+					q := &probes[k]
+					if q == p || q.pair != p.pair {
+						continue
+					}
+					other := dispatch(q)
+					res.Evals++
+					if other.ok && other.typ == base.typ {
+						res.Probes["serialisations_compared"]++
+						if other.valid != base.valid {
+							res.violate("C07", "verdict-differs-between-serialisations", "", i, "%s and %s carry the same claims-set and are both decoded as %s, but validation says %s for one and %s for the other", p.name, q.name, base.typ, base.valid, other.valid)
+						}
+					}
+				}
+			}
 			if p.ser != "json" {
 				break
 			}
@@ -1164,7 +1280,7 @@ func (regWorld) Exec(prop string, t *Trace) *Result {
 			var a, b psatoken.IClaims
 			func() {
 				defer func() { _ = recover() }()
-				switch op.D % 3 {
+				switch op.D % 4 {
 				case 0:
 					a, _ = psatoken.NewClaims(op.S)
 					b, _ = psatoken.NewClaims(op.S)
@@ -1173,7 +1289,31 @@ func (regWorld) Exec(prop string, t *Trace) *Result {
 					b, _ = psatoken.NewClaims(op.T)
 				default:
 					p := &probes[op.A%len(probes)]
+					if op.D%4 == 3 {
+						// favour the documents in unusual spellings
+						var edges []int
+						for k := range probes {
+							if probes[k].edge {
+								edges = append(edges, k)
+							}
+						}
+						if len(edges) > 0 {
+							p = &probes[edges[op.A%len(edges)]]
+						}
+					}
 					buf := append([]byte{}, p.doc...) // one caller buffer, decoded twice
+					if p.ser == "cose" && op.A%2 == 0 {
+						// the whole envelope, twice, through the Evidence-level decoder
+						e1, _ := psatoken.DecodeEvidenceFromCOSE(buf)
+						e2, _ := psatoken.DecodeEvidenceFromCOSE(buf)
+						if e1 != nil && e2 != nil {
+							a, b = e1.Claims, e2.Claims
+							if e1 == e2 {
+								res.violate("C16", "instances-share-state", "same-evidence", i, "two DecodeEvidenceFromCOSE calls on the same bytes returned the same *Evidence")
+							}
+						}
+						break
+					}
 					if p.ser == "cose" {
 						buf = append([]byte{}, p.payload...)
 					}
@@ -1205,7 +1345,7 @@ func (regWorld) Exec(prop string, t *Trace) *Result {
 			shape += "I"
 			if c16 {
 				if o := fullObs(b); o != ob {
-					res.violate("C16", "instances-share-state", "", i, "mutating one instance (%v after common prefix %v) changed another instance (mode %d, %q/%q):\n before: %s\n after:  %s", op.L[pre:], op.L[:pre], op.D%3, op.S, op.T, ob, o)
+					res.violate("C16", "instances-share-state", "", i, "mutating one instance (%v after common prefix %v) changed another instance (mode %d, %q/%q):\n before: %s\n after:  %s", op.L[pre:], op.L[:pre], op.D%4, op.S, op.T, ob, o)
 				}
 				res.Probes["independence_checked"]++
 			}
